@@ -384,17 +384,22 @@ static void extremes(unsigned long long& unit)
 			}
 	// (c) every integer axis (i,j,k) != 0 with |i|,|j|,|k| <= N, in batches, each batch in a child with a time limit: the child
 	// announces the axis before the call, so an axis on which Rotation_Matrix never returns is named
+	// (second lattice: the same indices mapped to generic binary fractions, x = 0.61803398875*i + 0.137 and so on, so that the
+	// normalisation meets generic roundings instead of exactly representable sums of squares)
 	int N = mc::thorough() ? 40 : 24;
+	for(int lattice = 0; lattice < 2; lattice++)
 	for(int i = -N; i <= N; i++)
 	{
 		if(!mc::mine(unit++)) continue;
+		auto coord = [lattice](int q, int which) { return lattice == 0 ? (double)q : (which == 0 ? 0.61803398875 * q + 0.137 : which == 1 ? 0.41421356237 * q - 0.0731 : 1.32471795724 * q + 0.2113); };
 		auto o = mc::isolate([&](std::function<void(const std::string&)> out) {
 			for(int j = -N; j <= N; j++)
 				for(int k = -N; k <= N; k++)
 				{
 					if(!i && !j && !k) continue;
 					out("A " + std::to_string(j) + " " + std::to_string(k) + "\n");
-					Matrix R = Rotation_Matrix(0.7, 3, Vector({(double)i, (double)j, (double)k}));
+					double ci = coord(i, 0), cj = coord(j, 1), ck = coord(k, 2);
+					Matrix R = Rotation_Matrix(0.7, 3, Vector({ci, cj, ck}));
 					ld worst = 0;
 					for(int a = 0; a < 3; a++)
 						for(int b = 0; b < 3; b++)
@@ -403,8 +408,8 @@ static void extremes(unsigned long long& unit)
 							for(int c = 0; c < 3; c++) q += (ld)R[c][a] * R[c][b];
 							worst = std::max(worst, fabsl(q - (a == b)));
 						}
-					ld nn = sqrtl((ld)i * i + (ld)j * j + (ld)k * k), fx = 0;
-					for(int a = 0; a < 3; a++) { ld q = (R[a][0] * (ld)i + R[a][1] * (ld)j + R[a][2] * (ld)k) / nn - (a == 0 ? i : a == 1 ? j : k) / nn; fx = std::max(fx, fabsl(q)); }
+					ld nn = sqrtl((ld)ci * ci + (ld)cj * cj + (ld)ck * ck), fx = 0;
+					for(int a = 0; a < 3; a++) { ld q = (R[a][0] * (ld)ci + R[a][1] * (ld)cj + R[a][2] * (ld)ck) / nn - (a == 0 ? ci : a == 1 ? cj : ck) / nn; fx = std::max(fx, fabsl(q)); }
 					if(!(worst <= K * mc::U_ && fx <= K * mc::U_)) out("F " + std::to_string(j) + " " + std::to_string(k) + " " + mc::dec((double)worst) + " " + mc::dec((double)fx) + "\n");
 				}
 		}, 60.0);
@@ -414,10 +419,10 @@ static void extremes(unsigned long long& unit)
 		while(std::getline(is, line))
 		{
 			if(line.rfind("A ", 0) == 0) last = line.substr(2);
-			else if(line.rfind("F ", 0) == 0) fail("rotation_lattice", "axis=" + std::to_string(i) + " " + line.substr(2), "not_orthogonal_or_axis_not_fixed", "R^T R - 1 and R n - n: " + line);
+			else if(line.rfind("F ", 0) == 0) fail("rotation_lattice", "lattice=" + std::to_string(lattice) + ",axis=" + std::to_string(i) + " " + line.substr(2), "not_orthogonal_or_axis_not_fixed", "R^T R - 1 and R n - n: " + line);
 		}
-		if(o.kind == mc::Outcome::TIMEOUT) fail("rotation_lattice", "axis=" + std::to_string(i) + " " + last, "does_not_return", "Rotation_Matrix(0.7, 3, axis) did not return within the time limit");
-		else if(o.kind != mc::Outcome::RETURNED) fail("rotation_lattice", "axis=" + std::to_string(i) + " " + last, "terminated_process", std::string("the batch ended with ") + o.name());
+		if(o.kind == mc::Outcome::TIMEOUT) fail("rotation_lattice", "lattice=" + std::to_string(lattice) + ",axis=" + std::to_string(i) + " " + last, "does_not_return", "Rotation_Matrix(0.7, 3, axis) did not return within the time limit");
+		else if(o.kind != mc::Outcome::RETURNED) fail("rotation_lattice", "lattice=" + std::to_string(lattice) + ",axis=" + std::to_string(i) + " " + last, "terminated_process", std::string("the batch ended with ") + o.name());
 	}
 	mc::count("extreme_cases", cases);
 }
